@@ -1,6 +1,7 @@
 """Bounded stand-in: run-time evaluation of the same contracts on the real functions.
 
 Labelled *bounded* everywhere; never added to obligations/discharged."""
+import os
 import random
 
 import numpy as np
@@ -8,18 +9,20 @@ import numpy as np
 from . import concrete as C
 
 
-def _map_arrays(x, f, counter):
+def _map_arrays(x, f, counter, every=False):
     if isinstance(x, np.ndarray):
-        if x.ndim >= 2 and min(x.shape) > 1:
+        if every or (x.ndim >= 2 and min(x.shape) > 1):
             counter[0] += 1
             return f(x, counter[0])
         return x
     if isinstance(x, tuple):
-        return tuple(_map_arrays(v, f, counter) for v in x)
+        return tuple(_map_arrays(v, f, counter, every) for v in x)
     if isinstance(x, list):
-        return [_map_arrays(v, f, counter) for v in x]
+        return [_map_arrays(v, f, counter, every) for v in x]
     if isinstance(x, dict):
-        return {k: _map_arrays(v, f, counter) for k, v in x.items()}
+        return {k: _map_arrays(v, f, counter, every) for k, v in x.items()}
+    if every:
+        return x  # (dtype variants: plain arrays only)
     try:
         import xarray as xr
     except Exception:  # pragma: no cover
@@ -52,6 +55,40 @@ def layout_variants(args, kwargs):
         f = (lambda x, k: np.asfortranarray(x)) if mode == "all" else (lambda x, k: np.asfortranarray(x) if k % 2 == 0 else x)
         va, vk = _map_arrays(args, f, n), _map_arrays(kwargs, f, n)
         if n[0] == 0 or (mode == "mixed" and n[0] < 2):
+            continue
+        out.append((va, vk))
+    return out
+
+
+def _as_integer_dtype(x):
+    """x rounded and cast to int64 when that keeps what samplers silently rely on: float64 input, all finite, at least
+    two entries, no value collapses onto another one and no sign changes (a positive weight stays positive)."""
+    if not isinstance(x, np.ndarray) or x.dtype != np.float64 or x.size < 2 or not np.all(np.isfinite(x)) or np.abs(x).max() > 2**40:
+        return None
+    r = np.round(x)
+    if np.unique(r).size != np.unique(x).size or np.any(np.sign(r) != np.sign(x)):
+        return None
+    return r.astype("int64")
+
+
+def dtype_variants(args, kwargs):
+    """The sample with (some of) its float64 arrays ROUNDED to whole numbers and handed over with an integer dtype: (a)
+    every eligible array, (b) every other eligible array (its neighbours keep their fractional values). These are other
+    inputs, not the same values - a contract holds for every valid input, so it must hold for them too (catches
+    buffers allocated with the dtype of one argument, in-place writes into integer arrays, casts to a common dtype)."""
+    out = []
+    for mode in (0, 1, 2):
+        n, done = [0], [0]
+
+        def f(x, k, mode=mode):
+            r = _as_integer_dtype(x)
+            if r is None or (mode and (k + mode) % 2):
+                return x
+            done[0] += 1
+            return r
+
+        va, vk = _map_arrays(args, f, n, True), _map_arrays(kwargs, f, n, True)
+        if done[0] == 0 or (mode and done[0] == n[0]):
             continue
         out.append((va, vk))
     return out
@@ -161,6 +198,14 @@ def run_samplers(keys, tier, seed, limit=None):
             for item in items:
                 try:
                     extra += [(va, vk) for va, vk in layout_variants(item[0], item[1])]
+                except Exception:
+                    pass
+            items = items + extra
+        if getattr(K, "dtype_variants", True) and os.environ.get("VERIF_NO_DTYPE_VARIANTS") != "1":
+            extra, base = [], [it for it in items[: len(items) - len(extra) if getattr(K, "layout_variants", True) else len(items)]]
+            for item in base[: (40 if tier == "thorough" else 15)]:
+                try:
+                    extra += [(va, vk) for va, vk in dtype_variants(item[0], item[1])]
                 except Exception:
                     pass
             items = items + extra
